@@ -46,6 +46,7 @@ func (x *Exec) baseState() *State {
 	st.next = mkInt(1000) // objects allocated by initialisers get concrete, pairwise distinct references
 	x.immutable = x.scanImmutable()
 	x.inInit = true
+	inInitPhase = true
 	for _, p := range x.inTreePackages() {
 		if guard, ok := p.Members["init$guard"].(*ssa.Global); ok {
 			st.globals[guard] = mkBool(false)
@@ -86,6 +87,8 @@ func (x *Exec) baseState() *State {
 	st.cells = map[*ssa.Alloc]T{}
 	st.defers = nil
 	st.concreteAlloc = false
+	convertInitHeaps(st)
+	inInitPhase = false
 	x.initBase = st
 	return st.clone()
 }
